@@ -69,6 +69,11 @@ def build():
         h.root('lerp__%s' % v, '%s(a: %s, b: %s, t: S) -> %s' % (g, Tn, Tn, Tn), 'VectorSpace::lerp(a, b, t)', ('value', [x + (y - x) * t for x, y in zip(a, b)]))
         for i, c in enumerate(comps):
             h.root('unit_%s__%s' % (c, v), '%s() -> %s' % (g, Tn), '%s::unit_%s()' % (T, c), ('value', [ONE if j == i else ZERO for j in range(n)]))
+    # scalar on the left (a stamped impl per primitive type): s op v applies the primitive op to each component, scalar first
+    for n, (T, comps) in VEC.items():
+        for p_ in ['usize', 'u8', 'u16', 'u32', 'u64', 'isize', 'i8', 'i16', 'i32', 'i64', 'f32', 'f64']:
+            for op in ('mul', 'div', 'rem'):
+                h.root('left_%s__%s__v%d' % (op, p_, n), '(a: %s, b: %s<%s>) -> %s<%s>' % (p_, T, p_, T, p_), 'a %s b' % OPS[op], ('left', op, n, p_))
     a, b = sv('a0', 3), sv('a1', 3)
     h.root('cross', '<S: BaseNum>(a: Vector3<S>, b: Vector3<S>) -> Vector3<S>', 'a.cross(b)', ('value', A.cross(a, b)))
     a, b = sv('a0', 2), sv('a1', 2)
@@ -102,7 +107,8 @@ def check_conj(run, S, name, spec, kw):
 
 
 def check_specs(run, S, h):
-    core.run_specs(run, S, h, custom={'conj_eq_zero': check_conj})
+    from c17 import check_left
+    core.run_specs(run, S, h, custom={'conj_eq_zero': check_conj, 'left': lambda run_, S_, name, spec, kw: check_left(run_, S_, name, spec, kw)})
 
 
 def run(tier):
@@ -116,7 +122,7 @@ def run(tier):
     for w, msg in meta.get('dropped', {}).items():
         run.ob('%s:%s:api-missing' % (PROP, w), False, rule='api-present', expected='wrapper compiles', found=msg)
     check_specs(run, S, h)
-    run.floor('roots', len(run.roots), 208)
+    run.floor('roots', len(run.roots), 352)
     if mono:
         run.floor('monomorphic_roots', len([n for n in mono if n in run.roots]), len(mono))
         run.notes['monomorphic_instantiations'] = {'types': ['i32', 'u8', 'i64', 'f32', 'f64'], 'roots': len(mono)}
